@@ -203,7 +203,7 @@ def run(chk):
                 c01.validate_traces(chk, h, tb)
             for sc in MT.block_scenarios(np.random.default_rng([chk.seed, 0xB10C, 1]), chk.tier, regimes=(4, 6),
                                          sizes=(64, 128, 129, 1024) if chk.tier == "quick" else None, nupd=2):
-                sc["params"]["gbs_threshold"] = float(rng.uniform(0.2, 0.9))
+                sc["params"]["gbs_threshold"] = float(rngb.uniform(0.2, 0.9))   # own stream: `rng` below is undisturbed
                 h = c01.run_history(rec, sc)
                 c01.validate_traces(chk, h, tb)
             # sliding acts after EVERY update, whatever the regime: textures that start with grains below
